@@ -425,9 +425,13 @@ def out_table(res):
 
 def eval_cases(ctx, cases):
     mts = [c for c in cases if c["kind"] == "mts"]
+    cases = [c for c in cases if c["kind"] != "mts"]
+    _eval_plain(ctx, cases)
     if mts:
         eval_mts(ctx, mts)
-    cases = [c for c in cases if c["kind"] != "mts"]
+
+
+def _eval_plain(ctx, cases):
     impls = [run_impl(c) for c in cases]
     reqs, idx = [], []
     for ci, (c, impl) in enumerate(zip(cases, impls)):
